@@ -1,7 +1,7 @@
 (* C18 — Whitespace stripping removes exactly the insignificant whitespace.
    Pinned statements only.  Model: Model/Unpretty.v (src/unpretty.rs). *)
 From Coq Require Import List NArith Permutation.
-From XotV Require Import Model.Base Model.Zipper Model.Access Model.Store Model.Manip Model.Unpretty Spec.DocOrder Proofs.UnprettyProofs Gen.Tables Proofs.EntityTables.
+From XotV Require Import Model.Base Model.Zipper Model.Access Model.Store Model.Manip Model.Unpretty Spec.DocOrder Proofs.UnprettyProofs.
 Import ListNotations.
 Open Scope N_scope.
 
@@ -64,16 +64,3 @@ Example C18_example :
              (FCons 6 (VElement 7) (FCons 7 (VText [32]) FNil (FCons 8 (VComment []) FNil (FCons 9 (VText [120]) FNil FNil))) FNil))) FNil in
   ordered t = true /\ stripped sp false (level_sig t) t = [2].
 Proof. vm_compute. split; reflexivity. Qed.
-
-
-(* what counts as white space, and the one xml:space value that switches the removal off, are read from src/unpretty.rs on
-   every run (Gen/Tables.v [xml_ws_chars], [xml_space_preserve]; tools/gen_tables.py): the model's test is that set of
-   characters, its literal is that literal *)
-Theorem C18_white_space_is_the_sources :
-  forall c, is_ws_char c = existsb (N.eqb c) xml_ws_chars.
-Proof. exact is_ws_char_is_the_table. Qed.
-Print Assumptions C18_white_space_is_the_sources.
-
-Theorem C18_preserve_literal_is_the_sources : s_preserve = xml_space_preserve.
-Proof. exact preserve_literal_is_the_sources. Qed.
-Print Assumptions C18_preserve_literal_is_the_sources.
